@@ -563,7 +563,12 @@ func (c *Ctx) evalBuiltin(st *State, x *ast.CallExpr, name string) Val {
 	case "delete":
 		unsupp("delete on map at %s", c.posStr(x.Pos()))
 	case "recover":
-		return Scalar{Term{"0", SInt}, types.NewInterfaceType(nil, nil)}
+		// recover() observes and clears the exceptional-exit flag of the running frame
+		pf := c.panicFlag(st)
+		r := c.declare("recovered", SInt)
+		st.assume(c, app(SBool, "<", Term{"0", SInt}, r))
+		st.ghosts["$panic"] = Scalar{TFalse, tBool}
+		return Scalar{c.name(Ite(pf, r, Term{"0", SInt}), "rec"), types.NewInterfaceType(nil, nil)}
 	case "print", "println":
 		return Tuple{}
 	}
